@@ -27,7 +27,8 @@ PROJECTION_CALLS = {
     "iter_mut", "iter", "as_mut", "as_ref", "first_mut", "last_mut", "into_iter", "enumerate",
     "next", "borrow_mut", "borrow", "as_mut_slice", "as_slice", "rev", "take", "skip", "by_ref",
     "unwrap_unchecked", "into", "from", "map", "filter", "zip", "peekable", "get_unchecked_mut",
-    "first", "last", "split_at_mut", "chunks_mut",
+    "first", "last", "split_at_mut", "chunks_mut", "entry", "or_insert", "or_insert_with", "or_default", "and_modify",
+    "values_mut", "copied", "cloned",
 }
 
 # std functions that take `&mut` only to derive a pointer / iterator into their argument and
@@ -37,7 +38,7 @@ NONMUTATING = {
     "borrow_mut", "get_unchecked_mut", "into_iter", "iter", "enumerate", "by_ref", "rev", "as_mut_ptr",
     "unwrap", "expect", "map", "filter", "zip", "take", "skip", "peekable", "into", "from", "collect",
     "partition", "deref", "is_some", "is_none", "len", "is_empty", "as_ref", "get", "index", "first", "last",
-    "first_key_value", "last_key_value", "contains_key", "eq", "ne", "cmp", "partial_cmp", "fmt",
+    "first_key_value", "last_key_value", "contains_key", "eq", "ne", "cmp", "partial_cmp", "fmt", "entry", "values_mut",
 }
 
 INTERIOR = ("Cell<", "RefCell<", "Mutex<", "RwLock<", "Atomic", "UnsafeCell<", "OnceCell<", "OnceLock<")
@@ -47,8 +48,11 @@ def is_mut_ref(ty):
     return ty.startswith("&mut ") or ty.startswith("*mut ")
 
 
+MUT_WRAPPERS = ("IterMut", "Entry<", "VacantEntry<", "OccupiedEntry<", "Drain<", "RefMut<", "ValuesMut<", "ChunksMut<", "PeekMut<")
+
+
 def contains_mut_ref(ty):
-    return "&mut " in ty or "*mut " in ty or "IterMut" in ty
+    return "&mut " in ty or "*mut " in ty or any(wr in ty for wr in MUT_WRAPPERS)
 
 
 class Loc:
@@ -77,11 +81,16 @@ class Effects:
         self._evs = {}
         self._inprog = set()
 
+    @staticmethod
+    def key(fn):
+        return ("inl:" if getattr(fn, "inlined_from", None) is not None else "") + fn.path
+
     def ev(self, fn):
-        e = self._evs.get(fn.path)
+        k = self.key(fn)
+        e = self._evs.get(k)
         if e is None:
             e = Ev(self.prog, fn)
-            self._evs[fn.path] = e
+            self._evs[k] = e
         return e
 
     # ------------------------------------------------------------------ base locations
@@ -138,7 +147,7 @@ class Effects:
                 name = e[4]
                 if name in PROJECTION_CALLS and e[2]:
                     if name in ("get_mut", "get", "index", "index_mut", "next", "iter", "iter_mut", "into_iter",
-                                "first_mut", "last_mut", "first", "last"):
+                                "first_mut", "last_mut", "first", "last", "entry", "values_mut"):
                         if not path or path[-1] != "[]":
                             path.append("[]")
                     e = e[2][0]
@@ -164,11 +173,12 @@ class Effects:
     # ------------------------------------------------------------------ summaries
     def summary(self, fn):
         """-> dict(writes=set((param_idx, path)), unknown=[reasons], local_writes=set)"""
-        if fn.path in self._sum:
-            return self._sum[fn.path]
-        if fn.path in self._inprog:
+        fkey = self.key(fn)
+        if fkey in self._sum:
+            return self._sum[fkey]
+        if fkey in self._inprog:
             return {"writes": set(), "unknown": ["recursion"], "sites": []}
-        self._inprog.add(fn.path)
+        self._inprog.add(fkey)
         ev = self.ev(fn)
         body = fn.body
         writes = set()
@@ -249,9 +259,9 @@ class Effects:
                                 continue  # closure effects were applied at creation
                             bl = self.base(fn, a)
                             record(bl, blk.i, t.sp, "extern " + name)
-        self._inprog.discard(fn.path)
+        self._inprog.discard(fkey)
         r = {"writes": writes, "unknown": unknown, "sites": sites}
-        self._sum[fn.path] = r
+        self._sum[fkey] = r
         return r
 
 
